@@ -93,6 +93,14 @@ func verifyUnit(env *Env, key string, fn *ssa.Function, opts UnitOpts) (u *Unit)
 	}
 	fr.old = st.clone()
 	vars := x.frameVars(fr)
+	for k, fv := range fn.FreeVars {
+		// captured variables are visible to the closure's contract by name (current content)
+		if p, ok := fr.freeVars[k].(*PtrVal); ok && p.Base == PLocal {
+			vars[fv.Name()] = cvar{v: st.cells[p.Cell], t: p.Cell.Typ}
+		} else {
+			vars[fv.Name()] = cvar{v: fr.freeVars[k], t: fv.Type()}
+		}
+	}
 	for _, ax := range env.con.Axioms {
 		ce := &cenv{x: x, st: st, old: st, vars: map[string]cvar{}}
 		x.assume(st, ce.evalBool(ax.Expr))
@@ -126,7 +134,7 @@ func verifyUnit(env *Env, key string, fn *ssa.Function, opts UnitOpts) (u *Unit)
 		x.bindResult(rvars, fn, r.val)
 		ce := &cenv{x: x, st: r.st, old: fr.old, vars: rvars, fr: fr}
 		for _, cl := range con.Ensures {
-			x.assertClause(r.st, "ensures", "", ce, cl, fn.Pos())
+			x.assertEnsures(r.st, ce, cl, fn)
 		}
 		if con.HasModifies {
 			// copy-in cells not listed in modifies must be unchanged
@@ -194,3 +202,18 @@ func (x *Exec) checkNoLocksHeld(st *State, fn *ssa.Function) {
 }
 
 func (x *Exec) atomicTouch(st *State, p *PtrVal, in ssa.Instruction) {}
+
+// assertEnsures checks a postcondition at one return; a clause that mentions a local which is
+// not alive at this return (declared after it) does not apply there.
+func (x *Exec) assertEnsures(st *State, ce *cenv, cl *Clause, fn *ssa.Function) {
+	defer func() {
+		if r := recover(); r != nil {
+			if us, ok := r.(unsupported); ok && strings.Contains(us.msg, "unknown identifier") {
+				x.note("postcondition mentioning a local not alive at an early return skipped there: " + cl.Src)
+				return
+			}
+			panic(r)
+		}
+	}()
+	x.assertClause(st, "ensures", "", ce, cl, fn.Pos())
+}
